@@ -1485,16 +1485,20 @@ class SourceFinder(object):
         curve_out = outbase + "_crv.fits"
         snr_out = outbase + "_snr.fits"
 
-        write_fits(bkgimg, header, background_out)
+        # the header keeps the BSCALE of the input image, so store the values
+        # that it describes (as BANE does)
+        bscale = header.get("BSCALE", 1.0)
+
+        write_fits(bkgimg/bscale, header, background_out)
         self.log.info("Wrote {0}".format(background_out))
 
-        write_fits(rmsimg, header, noise_out)
+        write_fits(rmsimg/bscale, header, noise_out)
         self.log.info("Wrote {0}".format(noise_out))
 
-        write_fits(curve, header, curve_out)
+        write_fits(curve/bscale, header, curve_out)
         self.log.info("Wrote {0}".format(curve_out))
 
-        write_fits(img/rmsimg, header, snr_out)
+        write_fits(img/rmsimg/bscale, header, snr_out)
         self.log.info("Wrote {0}".format(snr_out))
         return
 
